@@ -4,6 +4,8 @@
 -/
 import M4ri.Ops
 import M4ri.Alloc
+import M4ri.Io
+import M4ri.Djb
 open M4ri
 
 partial def loop (h : IO.FS.Stream) (out : IO.FS.Stream) : IO Unit := do
@@ -19,7 +21,28 @@ partial def loop (h : IO.FS.Stream) (out : IO.FS.Stream) : IO Unit := do
     else
       let id := toks[0]!
       let op := toks[1]!
-      if op == "alloc_seq" then
+      if op == "jcf_read" then
+        -- jcf_read <int tokens of the file>
+        match (toks.toList.drop 2).mapM String.toInt? with
+        | some ts =>
+          match Io.jcfParse ts with
+          | .ok A => out.putStrLn s!"{id} ok {showMat (Mzd.ofB A)}"
+          | .error "die" => out.putStrLn s!"{id} die"
+          | .error "negdims" => out.putStrLn s!"{id} die"
+          | .error _ => out.putStrLn s!"{id} ok null"
+        | none => out.putStrLn s!"{id} bad-args"
+      else if op == "from_str" then
+        let m := toks[2]!.toNat?.getD 0
+        let n := toks[3]!.toNat?.getD 0
+        out.putStrLn s!"{id} ok {showMat (Mzd.ofB (Io.fromStr m n (toks[4]?.getD "")))}"
+      else if op == "png_hdr" then
+        -- png_hdr width height depth colortype : does the reader accept such a file?
+        let g (k : Nat) := (toks[k]?.getD "0").toNat?.getD 0
+        let ct := g 5
+        let channels := if ct == 0 || ct == 3 then 1 else if ct == 4 then 2 else if ct == 2 then 3 else 4
+        let h : Io.PngHdr := { width := g 2, height := g 3, bitDepth := g 4, channels := channels, colorType := ct, interlace := 0 }
+        out.putStrLn s!"{id} ok i {if Io.pngAccept h then 1 else 0}"
+      else if op == "alloc_seq" then
         -- alloc_seq <nblocks> <cacheMax> <threshold> op.. ; ops i.r.c w.p.lr.lc.hr.hc f.h c
         let nb := toks[2]!.toNat?.getD 16
         let cm := toks[3]!.toNat?.getD 16
